@@ -37,11 +37,14 @@ var (
 	cmdLog   []string
 	// cmdFuncs: commands whose effect is computed when they run (deterministic functions of the workspace)
 	cmdFuncs map[string]func() error
+	// cmdCtxFuncs: long-running commands that observe their context (killed by CommandContext when it is cancelled)
+	cmdCtxFuncs map[string]func(ctx context.Context) ([]byte, error)
 )
 
 func resetCommands() {
 	cmdModel = map[string]*cmdBehaviour{}
 	cmdFuncs = map[string]func() error{}
+	cmdCtxFuncs = map[string]func(ctx context.Context) ([]byte, error){}
 	cmdLog = nil
 	extState = map[string]bool{}
 	watchFiles = nil
@@ -68,6 +71,9 @@ func verifRunCommand(ctx context.Context, target *model.Target, command string) 
 	snapshotAtStart(command)
 	if handled, out, err := extCommand(command); handled {
 		return out, err
+	}
+	if f := cmdCtxFuncs[command]; f != nil {
+		return f(ctx)
 	}
 	if f := cmdFuncs[command]; f != nil {
 		if err := f(); err != nil {
